@@ -66,6 +66,65 @@ def files_fact(ctx, job):
     return facts
 
 
+def reference_fact(ctx, job):
+    """Bounded corroboration on the real binary: -r <reference module>.  The reference is the same family of functions with some bodies changed;
+    every function must be defined exactly once across the files for every -f, static files may only hold functions whose body is byte-identical in the
+    reference, and the set of definitions equals that of a run without -r."""
+    import copy
+    pm = c03.build(ctx, "c09r", 10)
+    new = pm.m.encode()
+    pm2 = c03.build(ctx, "c09r", 10)
+    # reference: bodies of every third function changed (a nop appended in front), so that hashes differ
+    changed = set()
+    for i, (locs, body) in enumerate(pm2.m.codes):
+        if i % 3 == 1:
+            pm2.m.codes[i] = (locs, b"\x01" + body)       # a nop in front: another body, same behaviour
+            changed.add(i)
+    ref = pm2.m.encode()
+    facts = []
+    nfun = len(pm.probes)
+    base = None
+    for f in ([0, 2] if ctx.tier == "quick" else [0, 1, 2, 3, nfun + 1]):
+        dd = os.path.dirname(ctx.path("gen", "ref_f%d" % f, "x"))
+        open(os.path.join(dd, "m.wasm"), "wb").write(new); open(os.path.join(dd, "ref.wasm"), "wb").write(ref)
+        opts = ["-r", os.path.join(dd, "ref.wasm")] + (["-f", str(f)] if f else [])
+        r = subprocess.run([ctx.w2c2()] + opts + [os.path.join(dd, "m.wasm"), os.path.join(dd, "m.c")], capture_output=True, cwd=dd, timeout=120)
+        if r.returncode != 0:
+            facts.append(("-r ref.wasm %s: the translator exits with status 0" % ("-f %d" % f if f else "(default -f)"), False, r.stderr.decode(errors="replace")[-300:]))
+            continue
+        files = sorted(x for x in os.listdir(dd) if x.endswith(".c"))
+        text = {x: open(os.path.join(dd, x)).read() for x in files}
+        defs = []
+        where = {}
+        for x in files:
+            for m_ in re.finditer(r"^\w[\w ]*\b(f\d+)\(mInstance\*i[^;{]*\) \{", text[x], re.M):
+                defs.append(m_.group(1)); where[m_.group(1)] = x
+        tag = "-r ref.wasm %s" % ("-f %d" % f if f else "(default -f)")
+        facts.append((tag + ": each of the %d functions is defined exactly once across main/static/dynamic files" % nfun, sorted(defs) == sorted(set(defs)) and len(set(defs)) == nfun,
+                      "defs=%d distinct=%d files=%s" % (len(defs), len(set(defs)), files)))
+        statics = [fn for fn, x in where.items() if re.match(r"^s\d{10}\.c$", x)]
+        nimp = pm.m.nimport(0)
+        wrong = sorted(fn for fn in statics if (int(fn[1:]) - nimp) in changed)
+        facts.append((tag + ": a function is classified static only if the reference module contains a byte-identical body", not wrong, "changed bodies found in static files: %s; static=%s" % (wrong, sorted(statics))))
+    return facts
+
+
+def sha1_fact(ctx, job):
+    """Bounded corroboration: the repository's sha1.c against Python's hashlib for every length 0..300 (block boundaries 55/56/63/64/119/120/127/128/...)"""
+    d = os.path.dirname(ctx.path("sha1", "x", "x"))
+    drv = os.path.join(d, "drv.c")
+    open(drv, "w").write('#include <stdio.h>\n#include "sha1.h"\nint main(void){ static unsigned char buf[301]; unsigned char dg[20]; int n,i; for(i=0;i<301;i++) buf[i]=(unsigned char)(i*7+3);\n'
+                         ' for(n=0;n<=300;n++){ SHA1(buf,(size_t)n,dg); for(i=0;i<20;i++) printf("%02x",dg[i]); printf("\\n"); } return 0; }\n')
+    exe = os.path.join(d, "drv")
+    r = subprocess.run(["gcc", "-O1", "-I", os.path.join(ctx.repo, "w2c2"), drv, os.path.join(ctx.repo, "w2c2", "sha1.c"), "-o", exe], capture_output=True)
+    if r.returncode != 0:
+        raise Undecided("cannot build the sha1 driver: " + r.stderr.decode()[-300:])
+    out = subprocess.run([exe], capture_output=True, timeout=60).stdout.decode().split()
+    buf = bytes((i * 7 + 3) & 255 for i in range(301))
+    bad = [n for n in range(301) if n >= len(out) or out[n] != hashlib.sha1(buf[:n]).hexdigest()]
+    return [("sha1.c (the function identity of -r) agrees with SHA-1 for all message lengths 0..300", not bad, "first mismatching lengths: %s" % bad[:8])]
+
+
 def make_jobs(ctx):
     jobs = []
     # rely/guarantee obligations on the worker pool
@@ -96,6 +155,13 @@ def make_jobs(ctx):
     j = Job("B.files_and_threads", src=None, solver="static", funcs=["w2c2 binary: -f / -t"], bounded="one module of 28 functions, -f in {1,2,3,n+1} x -t in {1,2,4,8} x 2 runs (quick: subset)",
             info=dict(layer="bounded corroboration on the real binary"))
     j.static_fn = files_fact
+    jr = Job("B.reference_split", src=None, solver="static", funcs=["w2c2 binary: -r"], bounded="one module of %d functions against a reference with every third body changed, -f in {default, 2} (quick) / {default, 1, 2, 3, n+1}" % 29,
+             info=dict(layer="bounded corroboration on the real binary"))
+    jr.static_fn = reference_fact
+    jobs.append(jr)
+    js = Job("B.sha1", src=None, solver="static", funcs=["sha1.c:SHA1"], bounded="message lengths 0..300 of one byte pattern, against Python's hashlib", info=dict(layer="bounded native differential"))
+    js.static_fn = sha1_fact
+    jobs.append(js)
     jobs.append(j)
     return jobs
 
